@@ -4,19 +4,22 @@ From Coq Require Import List Arith Bool PeanoNat Permutation Lia.
 From TV Require Import Common.ObsCore C08.Model C08.Law C08.Proofs C16.Model.
 Import ListNotations.
 
-Lemma visits_rank rank h o fo g : ranked rank h -> forall x, visits h g x o fo = true -> rank x <= rank o.
+Lemma visits_rank t rank h o fo g : ranked rank h -> forall x, visits t h g x o fo = true -> rank x <= rank o.
 Proof.
-  intros R. induction g as [f n cs IH] using graph_ind'. intros x. cbn [visits]. rewrite Forall_forall in IH.
-  rewrite orb_true_iff. intros [A|A].
+  intros R. induction g as [fs n e cs IH] using graph_ind'. intros x. cbn [visits]. rewrite Forall_forall in IH.
+  intros A. apply existsb_exists in A. destruct A as [f [Hf A]]. apply andb_true_iff in A. destruct A as [_ A].
+  apply orb_true_iff in A. destruct A as [A|A].
   - apply slot_eqb_true in A. destruct A as [-> _]. lia.
   - apply existsb_exists in A. destruct A as [y [Hy A]]. apply existsb_exists in A. destruct A as [c [Hc A]].
     apply (IH c Hc y) in A. pose proof (R x f y Hy). lia.
 Qed.
 
-Lemma matched_visits h o fo g : forall x, matched h g x o fo = true -> visits h g x o fo = true.
+Lemma matched_visits t h o fo g : forall x, matched t h g x o fo = true -> visits t h g x o fo = true.
 Proof.
-  induction g as [f n cs IH] using graph_ind'. intros x. cbn [matched visits]. rewrite Forall_forall in IH.
-  rewrite !orb_true_iff. intros [A|A].
+  induction g as [fs n e cs IH] using graph_ind'. intros x. cbn [matched visits]. rewrite Forall_forall in IH.
+  intros A. apply existsb_exists in A. destruct A as [f [Hf A]]. apply andb_true_iff in A. destruct A as [Tf A].
+  apply existsb_exists. exists f. split; [exact Hf|]. rewrite Tf. cbn [andb].
+  apply orb_true_iff in A. apply orb_true_iff. destruct A as [A|A].
   - left. apply andb_true_iff in A. tauto.
   - right. apply existsb_exists in A. destruct A as [y [Hy A]]. apply existsb_exists in A.
     destruct A as [c [Hc A]]. apply existsb_exists. exists y. split; [exact Hy|].
@@ -25,48 +28,49 @@ Qed.
 
 (* on a ranked heap (a DAG, in particular a tree) whose rank also dominates the new content of
    the slot, the change is edge-acyclic for every set of registrations *)
-Lemma ranked_edge_acyclic_lemma rank h rs o fo news :
-  ranked rank h -> (forall y, In y news -> rank o < rank y) -> edge_acyclic h rs o fo news.
+Lemma ranked_edge_acyclic_lemma t rank h rs o fo news :
+  fo <> TA -> ranked rank h -> (forall y, In y news -> rank o < rank y) -> edge_acyclic t h rs o fo news.
 Proof.
-  intros R N kc _ y Hy. destruct (visits h (snd kc) y o fo) eqn:V; [exfalso|reflexivity].
-  apply (visits_rank rank h o fo (snd kc) R) in V.
+  intros NT R N. split; [exact NT|]. intros kc _ y Hy.
+  destruct (visits t h (snd kc) y o fo) eqn:V; [exfalso|reflexivity].
+  apply (visits_rank t rank h o fo (snd kc) R) in V.
   destruct Hy as [Hy|Hy]; [pose proof (R o fo y Hy)|pose proof (N y Hy)]; lia.
 Qed.
 
 (* ---------- '.' reports, ':' is silent ---------- *)
-Lemma matched_root_slot rank h f n cs r f0 :
-  ranked rank h -> matched h (G f n cs) r r f0 = n && Nat.eqb f f0.
+Lemma matched_root_slot t rank h f n e cs r f0 :
+  ranked rank h -> t r f = true -> matched t h (G [f] n e cs) r r f0 = n && Nat.eqb f f0.
 Proof.
-  intros R. cbn [matched].
-  assert (existsb (fun y => existsb (fun c => matched h c y r f0) cs) (h r f) = false) as E.
+  intros R Tf. cbn [matched existsb]. rewrite Tf, orb_false_r. cbn [andb].
+  assert (existsb (fun y => existsb (fun c => matched t h c y r f0) cs) (h r f) = false) as E.
   { destruct (existsb _ (h r f)) eqn:Q; [exfalso|reflexivity].
     apply existsb_exists in Q. destruct Q as [y [Hy Q]]. apply existsb_exists in Q. destruct Q as [c [Hc Q]].
-    apply matched_visits in Q. apply (visits_rank rank h r f0 c R) in Q. pose proof (R r f y Hy). lia. }
+    apply matched_visits in Q. apply (visits_rank t rank h r f0 c R) in Q. pose proof (R r f y Hy). lia. }
   rewrite E, orb_false_r. unfold slot_eqb. rewrite Nat.eqb_refl. reflexivity.
 Qed.
 
-Lemma link_root_slot rank h f n cs r f0 :
-  ranked rank h -> matched h (link f n cs) r r f0 = n && Nat.eqb f f0.
+Lemma link_root_slot t rank h f n cs r f0 :
+  ranked rank h -> t r f = true -> matched t h (link f n cs) r r f0 = n && Nat.eqb f f0.
 Proof.
-  intros R. unfold link. destruct (is_container f); apply (matched_root_slot rank); exact R.
+  intros R Tf. unfold link. destruct (is_container f); apply (matched_root_slot t rank); assumption.
 Qed.
 
 Lemma existsb_map {A B} (p : B -> bool) (g : A -> B) l : existsb p (map g l) = existsb (fun a => p (g a)) l.
 Proof. induction l; cbn; [reflexivity|]. rewrite IHl. reflexivity. Qed.
 
-Lemma dot_colon_lemma rank h names s rest gs r f :
-  ranked rank h -> rest <> [] -> NoDup names -> In f names ->
+Lemma dot_colon_lemma t rank h names s rest gs r f :
+  ranked rank h -> (forall f', In f' names -> t r f' = true) -> rest <> [] -> In f names ->
   legacy_to_graph ((names, s) :: rest) = Some gs ->
-  existsb (fun g => matched h g r r f) gs = sep_notify s.
+  existsb (fun g => matched t h g r r f) gs = sep_notify s.
 Proof.
-  intros R NE ND I L. cbn [legacy_to_graph] in L. destruct rest as [|it rest]; [congruence|].
+  intros R Tn NE I L. cbn [legacy_to_graph] in L. destruct rest as [|it rest]; [congruence|].
   destruct (legacy_to_graph (it :: rest)) as [cs|]; [|discriminate]. inversion L; subst gs. clear L.
   rewrite existsb_map.
   destruct (sep_notify s) eqn:S.
-    + apply existsb_exists. exists f. split; [exact I|]. rewrite (link_root_slot rank); [|exact R].
+    + apply existsb_exists. exists f. split; [exact I|]. rewrite (link_root_slot t rank); [|exact R|apply Tn; exact I].
       rewrite Nat.eqb_refl. reflexivity.
-    + destruct (existsb _ names) eqn:Q; [|reflexivity]. apply existsb_exists in Q. destruct Q as [f' [_ Q]].
-      rewrite (link_root_slot rank) in Q; [|exact R]. cbn in Q. discriminate.
+    + destruct (existsb _ names) eqn:Q; [|reflexivity]. apply existsb_exists in Q. destruct Q as [f' [If' Q]].
+      rewrite (link_root_slot t rank) in Q; [|exact R|apply Tn; exact If']. cbn in Q. discriminate.
 Qed.
 
 (* ---------- tree-shaped heaps: every hook is expected at most once ---------- *)
@@ -96,28 +100,35 @@ Proof.
     + destruct (U w f w' f' z I I') as [-> _]. apply IH. exact Rb'.
 Qed.
 
-Definition gfield (g : graph) : fname := match g with G f _ _ => f end.
-
-(* where the hooks of a graph applied to x live: on slot (x, f) itself, or strictly below it *)
-Lemma region h k g : forall x z fz kd,
-  In (z, fz, kd) (expected h k g x) ->
-  (z = x /\ fz = gfield g) \/ (exists y, In y (h x (gfield g)) /\ reach h y z).
+Lemma hooks_reach t h k g : forall x z fz kd, In (z, fz, kd) (expected t h k g x) -> reach h x z.
 Proof.
-  induction g as [f n cs IH] using graph_ind'. intros x z fz kd I. rewrite Forall_forall in IH.
-  cbn [expected gfield] in *. apply in_app_or in I. destruct I as [I|I].
-  - left. destruct n; [|destruct I]. destruct I as [E|[]]. inversion E. tauto.
-  - apply in_app_or in I. destruct I as [I|I].
-    + left. apply in_map_iff in I. destruct I as [c [E _]]. inversion E. tauto.
-    + right. apply in_flat_map in I. destruct I as [y [Hy I]]. apply in_flat_map in I. destruct I as [c [Hc I]].
-      exists y. split; [exact Hy|].
-      destruct (IH c Hc y z fz kd I) as [[-> _]|[y' [Hy' R]]]; [apply reach_refl|].
-      eapply reach_cons; eassumption.
+  induction g as [fs n e cs IH] using graph_ind'. intros x z fz kd I. rewrite Forall_forall in IH.
+  cbn [expected] in I. apply in_app_or in I. destruct I as [I|I].
+  - destruct e; [|destruct I]. destruct I as [E|[]]. inversion E. apply reach_refl.
+  - apply in_flat_map in I. destruct I as [f [Hf I]]. destruct (t x f); [|destruct I].
+    apply in_app_or in I. destruct I as [I|I].
+    + unfold own in I. apply in_app_or in I. destruct I as [I|I].
+      * destruct n; [|destruct I]. destruct I as [E|[]]. inversion E. apply reach_refl.
+      * apply in_map_iff in I. destruct I as [c [E _]]. inversion E. apply reach_refl.
+    + apply in_flat_map in I. destruct I as [y [Hy I]]. apply in_flat_map in I. destruct I as [c [Hc I]].
+      eapply reach_cons; [exact Hy|]. apply (IH c Hc y z fz kd I).
 Qed.
 
-Lemma region_reach h k g x z fz kd : In (z, fz, kd) (expected h k g x) -> reach h x z.
+(* where the hooks of a single-trait node applied to x live: on x itself (slot (x, f) or the
+   trait_added maintainer), or strictly below slot (x, f) *)
+Lemma region t h k f n e cs : forall x z fz kd,
+  In (z, fz, kd) (expected t h k (G [f] n e cs) x) ->
+  (z = x /\ (fz = f \/ (fz = TA /\ kd = KAdded k (G [f] n e cs)))) \/ (exists y, In y (h x f) /\ reach h y z).
 Proof.
-  intros I. destruct (region h k g x z fz kd I) as [[-> _]|[y [Hy R]]]; [apply reach_refl|].
-  eapply reach_cons; eassumption.
+  intros x z fz kd I. cbn [expected flat_map] in I. rewrite app_nil_r in I. apply in_app_or in I. destruct I as [I|I].
+  - left. destruct e; [|destruct I]. destruct I as [E|[]]. inversion E. split; [reflexivity|]. right. split; reflexivity.
+  - destruct (t x f); [|destruct I]. apply in_app_or in I. destruct I as [I|I].
+    + left. unfold own in I. apply in_app_or in I. destruct I as [I|I].
+      * destruct n; [|destruct I]. destruct I as [E|[]]. inversion E. tauto.
+      * apply in_map_iff in I. destruct I as [c [E _]]. inversion E. tauto.
+    + right. apply in_flat_map in I. destruct I as [y [Hy I]]. apply in_flat_map in I. destruct I as [c [Hc I]].
+      exists y. split; [exact Hy|].
+      apply (hooks_reach t h k c y z fz kd I).
 Qed.
 
 Lemma NoDup_app_intro {A} (l l' : list A) :
@@ -162,30 +173,58 @@ Qed.
 
 Fixpoint all_distinct (cs : list graph) : Prop :=
   match cs with [] => True | c :: l => distinct_fields c /\ all_distinct l end.
-Lemma distinct_fields_unfold f n cs :
-  distinct_fields (G f n cs) <-> NoDup (map gfield cs) /\ all_distinct cs.
+Lemma distinct_fields_unfold fs n e cs :
+  distinct_fields (G fs n e cs) <-> (exists f, fs = [f]) /\ NoDup (map gfield cs) /\ all_distinct cs.
 Proof.
-  cbn [distinct_fields]. fold gfield.
+  cbn [distinct_fields].
   assert ((fix all (l : list graph) : Prop := match l with [] => True | c :: l' => distinct_fields c /\ all l' end) cs
           = all_distinct cs) as E by (induction cs; cbn; congruence).
   rewrite E. tauto.
 Qed.
 Lemma all_distinct_In cs c : all_distinct cs -> In c cs -> distinct_fields c.
 Proof. induction cs; cbn; [tauto|]. intros [A B] [->|I]; auto. Qed.
+Lemma distinct_single g : distinct_fields g -> exists f n e cs, g = G [f] n e cs.
+Proof.
+  destruct g as [fs n e cs]. intros D. apply (proj1 (distinct_fields_unfold fs n e cs)) in D.
+  destruct D as [[f ->] _]. eauto.
+Qed.
 
 Section Tree.
-  Variables (rank : oid -> nat) (h : heap) (k : hkey).
+  Variables (t : traits) (rank : oid -> nat) (h : heap) (k : hkey).
   Hypothesis R : ranked rank h.
   Hypothesis U : unshared h.
 
-  (* two sibling graphs with different fields, applied to the same object, share no hook *)
+  (* two different sibling graphs with different fields, applied to the same object, share no hook *)
   Lemma siblings_disjoint c1 c2 y hk :
-    gfield c1 <> gfield c2 -> In hk (expected h k c1 y) -> In hk (expected h k c2 y) -> False.
+    distinct_fields c1 -> distinct_fields c2 -> gfield c1 <> gfield c2 ->
+    In hk (expected t h k c1 y) -> In hk (expected t h k c2 y) -> False.
   Proof.
-    intros NE I1 I2. destruct hk as [[z fz] kd].
-    destruct (region h k c1 y z fz kd I1) as [[E1 F1]|[y1 [Hy1 R1]]];
-      destruct (region h k c2 y z fz kd I2) as [[E2 F2]|[y2 [Hy2 R2]]].
-    - congruence.
+    intros D1 D2 NE I1 I2. destruct hk as [[z fz] kd].
+    destruct (distinct_single c1 D1) as [f1 [n1 [e1 [cs1 ->]]]].
+    destruct (distinct_single c2 D2) as [f2 [n2 [e2 [cs2 ->]]]]. cbn [gfield hd] in NE.
+    destruct (region t h k f1 n1 e1 cs1 y z fz kd I1) as [[E1 F1]|[y1 [Hy1 R1]]];
+      destruct (region t h k f2 n2 e2 cs2 y z fz kd I2) as [[E2 F2]|[y2 [Hy2 R2]]].
+    - destruct F1 as [F1|[F1 K1]], F2 as [F2|[F2 K2]]; try congruence.
+      + subst fz. rewrite K2 in I1. cbn [expected flat_map] in I1. rewrite app_nil_r in I1.
+        apply in_app_or in I1. destruct I1 as [I1|I1].
+        * destruct e1; [|destruct I1]. destruct I1 as [E|[]]. inversion E. congruence.
+        * destruct (t y f1); [|destruct I1]. apply in_app_or in I1. destruct I1 as [I1|I1].
+          -- unfold own in I1. apply in_app_or in I1. destruct I1 as [I1|I1].
+             ++ destruct n1; [|destruct I1]. destruct I1 as [E|[]]. discriminate.
+             ++ apply in_map_iff in I1. destruct I1 as [c [E _]]. discriminate.
+          -- apply in_flat_map in I1. destruct I1 as [y' [Hy' I1]]. apply in_flat_map in I1.
+             destruct I1 as [c [_ I1]]. apply hooks_reach in I1. subst z.
+             pose proof (R _ _ _ Hy'). pose proof (rank_reach rank h R _ _ I1). lia.
+      + subst fz. rewrite K1 in I2. cbn [expected flat_map] in I2. rewrite app_nil_r in I2.
+        apply in_app_or in I2. destruct I2 as [I2|I2].
+        * destruct e2; [|destruct I2]. destruct I2 as [E|[]]. inversion E. congruence.
+        * destruct (t y f2); [|destruct I2]. apply in_app_or in I2. destruct I2 as [I2|I2].
+          -- unfold own in I2. apply in_app_or in I2. destruct I2 as [I2|I2].
+             ++ destruct n2; [|destruct I2]. destruct I2 as [E|[]]. discriminate.
+             ++ apply in_map_iff in I2. destruct I2 as [c [E _]]. discriminate.
+          -- apply in_flat_map in I2. destruct I2 as [y' [Hy' I2]]. apply in_flat_map in I2.
+             destruct I2 as [c [_ I2]]. apply hooks_reach in I2. subst z.
+             pose proof (R _ _ _ Hy'). pose proof (rank_reach rank h R _ _ I2). lia.
     - subst z. pose proof (R _ _ _ Hy2). pose proof (rank_reach rank h R _ _ R2). lia.
     - subst z. pose proof (R _ _ _ Hy1). pose proof (rank_reach rank h R _ _ R1). lia.
     - destruct (reach_chain h U y1 z R1 y2 R2) as [C|C].
@@ -209,49 +248,59 @@ Section Tree.
     - destruct (U2 _ _ _ _ _ I' H1) as [-> _]. pose proof (R _ _ _ H2). pose proof (rank_reach rank h R _ _ C'). lia.
   Qed.
 
-  Lemma expected_NoDup g : distinct_fields g -> forall x, NoDup (expected h k g x).
+  Lemma expected_NoDup g : distinct_fields g -> forall x, NoDup (expected t h k g x).
   Proof.
-    induction g as [f n cs IH] using graph_ind'. intros D x. rewrite Forall_forall in IH.
-    apply (proj1 (distinct_fields_unfold f n cs)) in D. destruct D as [DF DA].
-    cbn [expected]. apply NoDup_app_intro; [|apply NoDup_app_intro|].
-    - destruct n; [constructor; [intros []|constructor]|constructor].
-    - (* maintainers: one per child graph *)
-      apply FinFun.Injective_map_NoDup; [|apply (NoDup_of_map gfield); exact DF].
-      intros c1 c2 E. inversion E. reflexivity.
-    - (* below *)
-      apply NoDup_flat_map.
-      + destruct U as [U1 _]. apply U1.
-      + intros y Hy. apply NoDup_flat_map.
-        * apply (NoDup_of_map gfield). exact DF.
-        * intros c Hc. apply IH; [exact Hc|]. apply (all_distinct_In cs); assumption.
-        * intros c1 c2 hk H1 H2 NE I1 I2. apply (siblings_disjoint c1 c2 y hk); try assumption.
-          intros E. apply NE. apply (NoDup_map_inj gfield cs); assumption.
-      + intros y1 y2 hk H1 H2 NE I1 I2. destruct hk as [[z fz] kd].
-        apply in_flat_map in I1. destruct I1 as [c1 [_ I1]]. apply in_flat_map in I2. destruct I2 as [c2 [_ I2]].
-        apply (members_disjoint x f y1 y2 z H1 H2 NE); eapply region_reach; eassumption.
-    - (* maintainers vs below *)
-      intros hk I1 I2. apply in_map_iff in I1. destruct I1 as [c [<- _]].
-      apply in_flat_map in I2. destruct I2 as [y [Hy I2]]. apply in_flat_map in I2. destruct I2 as [c' [_ I2]].
-      apply region_reach in I2. pose proof (R _ _ _ Hy). pose proof (rank_reach rank h R _ _ I2). lia.
-    - (* user notifier vs the rest *)
-      intros hk I1 I2. destruct n; [|destruct I1]. destruct I1 as [<-|[]].
-      apply in_app_or in I2. destruct I2 as [I2|I2].
-      + apply in_map_iff in I2. destruct I2 as [c [E _]]. discriminate.
+    induction g as [fs n e cs IH] using graph_ind'. intros D x. rewrite Forall_forall in IH.
+    apply (proj1 (distinct_fields_unfold fs n e cs)) in D. destruct D as [[f ->] [DF DA]].
+    cbn [expected flat_map]. rewrite app_nil_r. apply NoDup_app_intro.
+    - destruct e; [constructor; [intros []|constructor]|constructor].
+    - destruct (t x f); [|constructor]. unfold own. rewrite <- app_assoc.
+      apply NoDup_app_intro; [|apply NoDup_app_intro|].
+      + destruct n; [constructor; [intros []|constructor]|constructor].
+      + apply FinFun.Injective_map_NoDup; [|apply (NoDup_of_map gfield); exact DF].
+        intros c1 c2 E. inversion E. reflexivity.
+      + apply NoDup_flat_map.
+        * destruct U as [U1 _]. apply U1.
+        * intros y Hy. apply NoDup_flat_map.
+          -- apply (NoDup_of_map gfield). exact DF.
+          -- intros c Hc. apply IH; [exact Hc|]. apply (all_distinct_In cs); assumption.
+          -- intros c1 c2 hk H1 H2 NE I1 I2. apply (siblings_disjoint c1 c2 y hk); try assumption.
+             ++ apply (all_distinct_In cs); assumption.
+             ++ apply (all_distinct_In cs); assumption.
+             ++ intros E. apply NE. apply (NoDup_map_inj gfield cs); assumption.
+        * intros y1 y2 hk H1 H2 NE I1 I2. destruct hk as [[z fz] kd].
+          apply in_flat_map in I1. destruct I1 as [c1 [_ I1]]. apply in_flat_map in I2. destruct I2 as [c2 [_ I2]].
+          apply (members_disjoint x f y1 y2 z H1 H2 NE); eapply hooks_reach; eassumption.
+      + intros hk I1 I2. apply in_map_iff in I1. destruct I1 as [c [<- _]].
+        apply in_flat_map in I2. destruct I2 as [y [Hy I2]]. apply in_flat_map in I2. destruct I2 as [c' [_ I2]].
+        apply hooks_reach in I2. pose proof (R _ _ _ Hy). pose proof (rank_reach rank h R _ _ I2). lia.
+      + intros hk I1 I2. destruct n; [|destruct I1]. destruct I1 as [<-|[]].
+        apply in_app_or in I2. destruct I2 as [I2|I2].
+        * apply in_map_iff in I2. destruct I2 as [c [E _]]. discriminate.
+        * apply in_flat_map in I2. destruct I2 as [y [Hy I2]]. apply in_flat_map in I2. destruct I2 as [c' [_ I2]].
+          apply hooks_reach in I2. pose proof (R _ _ _ Hy). pose proof (rank_reach rank h R _ _ I2). lia.
+    - (* the trait_added maintainer vs the rest *)
+      intros hk I1 I2. destruct e; [|destruct I1]. destruct I1 as [<-|[]].
+      destruct (t x f); [|destruct I2]. apply in_app_or in I2. destruct I2 as [I2|I2].
+      + unfold own in I2. apply in_app_or in I2. destruct I2 as [I2|I2].
+        * destruct n; [|destruct I2]. destruct I2 as [E|[]]. discriminate.
+        * apply in_map_iff in I2. destruct I2 as [c [E _]]. discriminate.
       + apply in_flat_map in I2. destruct I2 as [y [Hy I2]]. apply in_flat_map in I2. destruct I2 as [c' [_ I2]].
-        apply region_reach in I2. pose proof (R _ _ _ Hy). pose proof (rank_reach rank h R _ _ I2). lia.
+        apply hooks_reach in I2. pose proof (R _ _ _ Hy). pose proof (rank_reach rank h R _ _ I2). lia.
   Qed.
 
   Lemma expected_list_NoDup gs r :
-    NoDup (map gfield gs) -> all_distinct gs -> NoDup (flat_map (fun g => expected h k g r) gs).
+    NoDup (map gfield gs) -> all_distinct gs -> NoDup (flat_map (fun g => expected t h k g r) gs).
   Proof.
     intros DF DA. apply NoDup_flat_map.
     - apply (NoDup_of_map gfield). exact DF.
     - intros g Hg. apply expected_NoDup. apply (all_distinct_In gs); assumption.
     - intros g1 g2 hk H1 H2 NE I1 I2. apply (siblings_disjoint g1 g2 r hk); try assumption.
-      intros E. apply NE. apply (NoDup_map_inj gfield gs); assumption.
+      + apply (all_distinct_In gs); assumption.
+      + apply (all_distinct_In gs); assumption.
+      + intros E. apply NE. apply (NoDup_map_inj gfield gs); assumption.
   Qed.
 End Tree.
-
 (* ---------- the graphs of a legacy name ---------- *)
 Definition names_nodup (e : ename) : Prop := Forall (fun it : list fname * sep => NoDup (fst it)) e.
 
@@ -261,9 +310,10 @@ Proof. unfold link. destruct (is_container f); reflexivity. Qed.
 Lemma link_distinct f n cs : NoDup (map gfield cs) -> all_distinct cs -> distinct_fields (link f n cs).
 Proof.
   intros DF DA. unfold link. destruct (is_container f).
-  - apply distinct_fields_unfold. split; [repeat constructor; intros []|]. cbn [all_distinct]. split; [|exact I].
-    apply distinct_fields_unfold. tauto.
-  - apply distinct_fields_unfold. tauto.
+  - apply distinct_fields_unfold. split; [eexists; reflexivity|]. split; [repeat constructor; intros []|].
+    cbn [all_distinct]. split; [|exact I].
+    apply distinct_fields_unfold. split; [eexists; reflexivity|]. tauto.
+  - apply distinct_fields_unfold. split; [eexists; reflexivity|]. tauto.
 Qed.
 
 Lemma legacy_distinct : forall e gs, names_nodup e -> legacy_to_graph e = Some gs ->
@@ -273,8 +323,9 @@ Proof.
   inversion ND as [|? ? Nn Nr]; subst. cbn [fst] in Nn.
   destruct rest as [|it rest].
   - cbn [legacy_to_graph] in L. destruct (forallb _ names); [|discriminate]. inversion L; subst gs. clear L. split.
-    + rewrite map_map. cbn [gfield]. rewrite map_id. exact Nn.
-    + clear. induction names; cbn; [exact I|]. split; [|assumption]. split; [constructor|exact I].
+    + rewrite map_map. cbn [gfield hd]. rewrite map_id. exact Nn.
+    + clear. induction names; cbn [map all_distinct]; [exact I|]. split; [|assumption].
+      apply distinct_fields_unfold. split; [eexists; reflexivity|]. split; [constructor|exact I].
   - change (legacy_to_graph ((names, s) :: it :: rest))
       with (match legacy_to_graph (it :: rest) with
             | Some cs => Some (map (fun f => link f (sep_notify s) cs) names) | None => None end) in L.
@@ -285,12 +336,6 @@ Proof.
 Qed.
 
 (* ---------- path multiplicity on trees ---------- *)
-Lemma expected_user_key h k g x z fz k' : In (z, fz, KUser k') (expected h k g x) -> k' = k.
-Proof.
-  intros I. apply (users_on_expected_key h k z fz g x k'). unfold users_on. apply in_flat_map.
-  exists (z, fz, KUser k'). split; [exact I|]. cbn. rewrite slot_eqb_refl. left. reflexivity.
-Qed.
-
 Lemma all_equal_length {A} (a : A) l : NoDup l -> (forall y, In y l -> y = a) -> length l <= 1.
 Proof.
   intros ND E. destruct l as [|b [|c l]]; cbn; [lia|lia|exfalso].
@@ -303,39 +348,39 @@ Lemma user_hook_eqb_spec x f hk k :
   user_hook_eqb x f hk = true -> hk = (x, f, KUser k).
 Proof.
   destruct hk as [[z fz] kd]. intros K. cbn. rewrite andb_true_iff. intros [S Kd].
-  apply slot_eqb_true in S. destruct S as [-> ->]. destruct kd as [k'|]; [|discriminate].
+  apply slot_eqb_true in S. destruct S as [-> ->]. destruct kd as [k'| |]; try discriminate.
   rewrite (K x f k' eq_refl). reflexivity.
 Qed.
 
-Lemma path_count_le_1_lemma rank h k e gs r x f :
+Lemma path_count_le_1_lemma t rank h k e gs r x f :
   ranked rank h -> unshared h -> names_nodup e -> legacy_to_graph e = Some gs ->
-  path_count h k gs r x f <= 1.
+  path_count t h k gs r x f <= 1.
 Proof.
   intros R U ND L. destruct (legacy_distinct e gs ND L) as [DF DA].
   unfold path_count. apply (all_equal_length (x, f, KUser k)).
-  - apply NoDup_filter. apply (expected_list_NoDup rank h k R U gs r DF DA).
+  - apply NoDup_filter. apply (expected_list_NoDup t rank h k R U gs r DF DA).
   - intros hk I. apply filter_In in I. destruct I as [I P]. apply (user_hook_eqb_spec x f hk k); [|exact P].
     intros z fz k' ->. apply in_flat_map in I. destruct I as [g [_ I]]. eapply expected_user_key. exact I.
 Qed.
 
-Lemma path_count_pos h k gs r x f :
-  0 < path_count h k gs r x f <-> existsb (fun g => matched h g r x f) gs = true.
+Lemma path_count_pos t h k gs r x f :
+  0 < path_count t h k gs r x f <-> existsb (fun g => matched t h g r x f) gs = true.
 Proof.
   unfold path_count. split.
   - intros P. destruct (filter _ _) as [|hk l] eqn:E; [cbn in P; lia|].
-    assert (In hk (filter (user_hook_eqb x f) (flat_map (fun g => expected h k g r) gs))) as I
+    assert (In hk (filter (user_hook_eqb x f) (flat_map (fun g => expected t h k g r) gs))) as I
       by (rewrite E; left; reflexivity).
     apply filter_In in I. destruct I as [I Q]. apply in_flat_map in I. destruct I as [g [Hg I]].
     apply existsb_exists. exists g. split; [exact Hg|].
-    apply (users_on_expected h k x f g r). destruct hk as [[z fz] kd]. cbn in Q.
-    apply andb_true_iff in Q. destruct Q as [S Kd]. destruct kd as [k'|]; [|discriminate].
+    apply (users_on_expected t h k x f g r). destruct hk as [[z fz] kd]. cbn in Q.
+    apply andb_true_iff in Q. destruct Q as [S Kd]. destruct kd as [k'| |]; try discriminate.
     exists k'. unfold users_on. apply in_flat_map. exists (z, fz, KUser k'). split; [exact I|].
     cbn. rewrite S. left. reflexivity.
   - intros M. apply existsb_exists in M. destruct M as [g [Hg M]].
-    apply (users_on_expected h k x f g r) in M. destruct M as [u Iu]. unfold users_on in Iu.
+    apply (users_on_expected t h k x f g r) in M. destruct M as [u Iu]. unfold users_on in Iu.
     apply in_flat_map in Iu. destruct Iu as [[[z fz] kd] [I Q]]. cbn in Q.
-    destruct (slot_eqb z fz x f) eqn:S; [|destruct Q]. destruct kd as [k'|]; [|destruct Q].
-    assert (In (z, fz, KUser k') (filter (user_hook_eqb x f) (flat_map (fun g => expected h k g r) gs))) as F.
+    destruct (slot_eqb z fz x f) eqn:S; [|destruct Q]. destruct kd as [k'| |]; try (destruct Q; fail).
+    assert (In (z, fz, KUser k') (filter (user_hook_eqb x f) (flat_map (fun g => expected t h k g r) gs))) as F.
     { apply filter_In. split; [apply in_flat_map; exists g; split; assumption|]. cbn. rewrite S. reflexivity. }
     destruct (filter _ _); [destruct F|cbn; lia].
 Qed.
@@ -355,25 +400,25 @@ Lemma legacy_eq_observe_lemma rank st o x f e gs k :
   ranked rank (st_heap st) -> unshared (st_heap st) ->
   names_nodup e -> legacy_to_graph e = Some gs -> st_regs st = map (pair k) gs ->
   length (filter (hkey_eqb k) (map call_key (ob_calls (snd (step st o)))))
-  = path_count (st_heap st) k gs (snd k) x f.
+  = path_count (st_traits st) (st_heap st) k gs (snd k) x f.
 Proof.
   intros I Hy N R U ND L RG. pose proof (step_spec st o I Hy) as S. unfold step_ok in S.
   destruct (step st o) as [st' ob]. rewrite N in S. destruct S as [_ [_ [NDk [Sp _]]]]. cbn [snd].
   rewrite (count_key_nodup k _ NDk).
-  pose proof (path_count_le_1_lemma rank (st_heap st) k e gs (snd k) x f R U ND L) as LE.
-  pose proof (path_count_pos (st_heap st) k gs (snd k) x f) as POS.
+  pose proof (path_count_le_1_lemma (st_traits st) rank (st_heap st) k e gs (snd k) x f R U ND L) as LE.
+  pose proof (path_count_pos (st_traits st) (st_heap st) k gs (snd k) x f) as POS.
   destruct (mem_key k (map call_key (ob_calls ob))) eqn:M.
   - apply mem_key_In in M. apply Sp in M. destruct M as [g [Hg Mg]]. rewrite RG in Hg.
     apply in_map_iff in Hg. destruct Hg as [g' [E Hg']]. inversion E; subst g'.
-    assert (existsb (fun g => matched (st_heap st) g (snd k) x f) gs = true) as X
+    assert (existsb (fun g => matched (st_traits st) (st_heap st) g (snd k) x f) gs = true) as X
       by (apply existsb_exists; exists g; split; assumption).
     apply POS in X. lia.
-  - destruct (existsb (fun g => matched (st_heap st) g (snd k) x f) gs) eqn:X.
+  - destruct (existsb (fun g => matched (st_traits st) (st_heap st) g (snd k) x f) gs) eqn:X.
     + exfalso. apply existsb_exists in X. destruct X as [g [Hg Mg]].
       assert (In k (map call_key (ob_calls ob))) as IK.
       { apply Sp. exists g. split; [rewrite RG; apply in_map; exact Hg|exact Mg]. }
       apply mem_key_In in IK. congruence.
-    + assert (~ 0 < path_count (st_heap st) k gs (snd k) x f) as NZ
+    + assert (~ 0 < path_count (st_traits st) (st_heap st) k gs (snd k) x f) as NZ
         by (intros Z; apply POS in Z; congruence).
       lia.
 Qed.
